@@ -32,7 +32,7 @@ pub fn evals(prop: &str) -> Vec<(&'static str, &'static str)> {
     match prop {
         "C01" => v.extend([("prop_faithful", "prop_faithful"), ("hyp_coincidence_free", "hyp_coincidence_free")]),
         "C02" => v.extend([("prop_syn_parses", "prop_syn_parses"), ("prop_closed", "prop_closed")]),
-        "C07" => v.extend([("prop_subst", "prop_subst"), ("hyp_has_subst", "hyp_has_subst"), ("known_F5", "known_F5")]),
+        "C07" => v.extend([("prop_subst", "prop_subst"), ("prop_faithful", "prop_faithful"), ("hyp_has_subst", "hyp_has_subst"), ("known_F5", "known_F5")]),
         "C08" => v.extend([("prop_derives_exact", "prop_derives_exact"), ("hyp_has_recursive", "hyp_has_recursive")]),
         "C10" => v.extend([("prop_fault_expect", "prop_fault_expect"), ("prop_wf_total", "prop_wf_total"), ("hyp_wf", "hyp_wf")]),
         "C18" => v.extend([("prop_standalone", "prop_standalone")]),
